@@ -54,6 +54,15 @@ gen_corpus() {
   local VT="$VERIF/schemas/vt.yang $VERIF/schemas/vt-aug.yang" VOC="$VERIF/schemas/voc.yang" VK="$VERIF/schemas/vk.yang" VV="$VERIF/schemas/vval.yang"
   gen_pkg vtus vt U-simple false false false false -generate_simple_unions -- $VT &
   gen_pkg vtuw vt U-wrapper false true false false -- $VT &
+  # vtrs: a second REVISION of module vt (one more enum value in front of typedef color, one more identity sorting
+  # first), so that two packages in one process have identically named enum types with different numbering:
+  # the input for any process-wide cache keyed by a type NAME instead of the type. schemas/rev/ is derived from
+  # schemas/vt.yang by the sed below and committed (the reference decoders read it); a stale copy is an error.
+  mkdir -p "$WORK/rev"
+  sed -e 's/enum RED;/enum AMBER; enum RED;/' -e 's/^  identity ID-A /  identity ID-0 { base BASE; }\n  identity ID-A /' "$VERIF/schemas/vt.yang" > "$WORK/rev/vt.yang"
+  cmp -s "$WORK/rev/vt.yang" "$VERIF/schemas/rev/vt.yang" && cmp -s "$VERIF/schemas/vt-aug.yang" "$VERIF/schemas/rev/vt-aug.yang" || die "schemas/rev is stale: re-derive it from schemas/vt.yang (see scripts/lib.sh)"
+  grep -q "enum AMBER" "$VERIF/schemas/rev/vt.yang" && grep -q "identity ID-0" "$VERIF/schemas/rev/vt.yang" || die "schemas/rev/vt.yang is not a revision of vt"
+  REGFN=RegisterAux gen_pkg vtrs vtrev U-simple false false false false -generate_simple_unions -- "$VERIF/schemas/rev/vt.yang" "$VERIF/schemas/rev/vt-aug.yang" &
   gen_pkg vocus voc U-simple false false false false -generate_simple_unions -- $VOC &
   gen_pkg vocuw voc U-wrapper false true false false -- $VOC &
   gen_pkg voccs voc C-simple true false false false -generate_simple_unions -compress_paths -- $VOC &
@@ -80,10 +89,10 @@ gen_corpus() {
   wait
   ven_wanted && gen_ven_finish
   ps_wanted && gen_ps_finish
-  for p in vtus vtuw vocus vocuw voccs voccw vocco voccsh vkus vkuw vvalus vvaluw vlrus vlruw vdus vduw; do [ -s "$WORK/gen/$p/$p.go" ] || die "corpus package $p was not generated"; done
+  for p in vtus vtuw vtrs vocus vocuw voccs voccw vocco voccsh vkus vkuw vvalus vvaluw vlrus vlruw vdus vduw; do [ -s "$WORK/gen/$p/$p.go" ] || die "corpus package $p was not generated"; done
   {
     echo "package main"; echo; echo "import ("
-    for p in vtus vtuw vocus vocuw voccs voccw vocco voccsh vkus vkuw vvalus vvaluw vlrus vlruw vdus vduw $VEN_IMPORTS $PS_IMPORTS; do echo "	_ \"github.com/openconfig/ygot/zzverif/gen/$p\""; done
+    for p in vtus vtuw vtrs vocus vocuw voccs voccw vocco voccsh vkus vkuw vvalus vvaluw vlrus vlruw vdus vduw $VEN_IMPORTS $PS_IMPORTS; do echo "	_ \"github.com/openconfig/ygot/zzverif/gen/$p\""; done
     echo ")"
   } > "$WORK/imports_gen.go"
 }
